@@ -451,7 +451,13 @@ def runOp (s : Sexp) : String :=
   | .list [.atom "jdeep", .atom _] => "unsupported"
   -- hundreds of thousands of elements: the model's decoder is quadratic in the element count; oracle only
   | .list [.atom "declong", _, _, .atom _, .atom _] => "unsupported"
-  | .list (.atom "decdeep" :: _) => "unsupported"   -- inputs nested deeper than the cut of a recursive type
+  | .list (.atom "decdeep" :: _) => "unsupported"
+  | .list (.atom "lawsz" :: _) => "unsupported"     -- many elements / entries: sizes and round trip judged by the oracle
+  | .list (.atom "tdeep" :: _) => "unsupported"
+  | .list (.atom "descconc" :: _) => "unsupported"
+  | .list (.atom "jconc" :: _) => "unsupported"
+  | .list (.atom "regintern" :: _) => "unsupported"
+  | .list (.atom "bqptr" :: _) => "unsupported"   -- inputs nested deeper than the cut of a recursive type
   | .list [.atom "internmany", .atom _] => "unsupported"
   -- pointer-keyed maps: keys are identities, outside the value model
   | .list [.atom "ptrkeys", .atom _] => "unsupported"
